@@ -29,19 +29,26 @@ theorem docBind_ok {β γ : Type} (x : DocM β) (f : β → DocM γ) (s s' : Svg
     final document — the only outcomes are "a document that passed the gate" or an exception -/
 theorem topicosvg_ok_passed_gate (nd : Int) (allowText drop noneGood : Bool) (s s' : SvgObj)
     (h : topicosvg nd allowText drop noneGood s = .ok ((), s')) :
-    ∃ s1, convertSteps nd noneGood s = .ok ((), s1) ∧ checkpicosvg allowText drop s1 = .ok ([], s') := by
+    ∃ s1 s2, convertSteps nd noneGood s = .ok ((), s1) ∧ checkpicosvg allowText drop s1 = .ok ([], s2) ∧
+      (if drop then removeOrphansAfterPruning s2 = .ok ((), s') else s2 = s') := by
   unfold topicosvg at h
   obtain ⟨u, s1, h1, h2⟩ := docBind_ok _ _ s s' () h
-  refine ⟨s1, h1, ?_⟩
-  unfold gateStep at h2
-  obtain ⟨viol, s2, h3, h4⟩ := docBind_ok _ _ s1 s' () h2
-  cases viol with
-  | nil =>
-    simp only [List.isEmpty_nil, Bool.not_true, Bool.false_eq_true, if_false, pure, StateT.pure, Except.pure] at h4
-    injection h4 with h4; injection h4 with _ h4; subst h4; exact h3
-  | cons v vs =>
-    simp only [List.isEmpty_cons, Bool.not_false, if_true, DocM.fail] at h4
-    exact absurd h4 (by simp)
+  obtain ⟨u2, s2, hg, hfin⟩ := docBind_ok _ _ s1 s' () h2
+  refine ⟨s1, s2, h1, ?_, ?_⟩
+  · unfold gateStep at hg
+    obtain ⟨viol, s3, h3, h4⟩ := docBind_ok _ _ s1 s2 () hg
+    cases viol with
+    | nil =>
+      simp only [List.isEmpty_nil, Bool.not_true, Bool.false_eq_true, if_false, pure, StateT.pure, Except.pure] at h4
+      injection h4 with h4; injection h4 with _ h4; subst h4; exact h3
+    | cons v vs =>
+      simp only [List.isEmpty_cons, Bool.not_false, if_true, DocM.fail] at h4
+      exact absurd h4 (by simp)
+  · cases drop with
+    | true => simpa using hfin
+    | false =>
+      simp only [Bool.false_eq_true, if_false, pure, StateT.pure, Except.pure] at hfin ⊢
+      injection hfin with hfin; injection hfin with _ hfin
 
 /-- C17-fuel: running out of fuel in the use loop is the outcome `RecursionError`, never a value -/
 theorem useLoop_no_fuel (byId : List (String × Node)) (u : Nat) (s : SvgObj) :
